@@ -46,7 +46,7 @@ def sha_tree():
     return h.hexdigest()[:24]
 
 
-def run_verus(path, extra=None, timeout=int(os.environ.get("VERIF_VERUS_CAP_S", "900"))):
+def run_verus(path, extra=None, timeout=int(os.environ.get("VERIF_VERUS_CAP_S", "1500"))):
     flags = list(VERUS_FLAGS)
     extra = list(extra or [])
     if "--rlimit" in extra:     # an explicit limit replaces the default one (verus rejects a repeated option)
